@@ -469,6 +469,25 @@ func (solution *pathSolution) Path(hashState hashState) Path {
 	return path
 }
 
+// maxSegLen is the maximum number of hop fields in one segment of a SCION
+// path (the SegLen fields of the path meta header have 6 bits).
+const maxSegLen = 63
+
+// fitsPathHeader reports whether the solution can be represented as a SCION
+// path: at most scion.MaxHops hop fields in total and at most maxSegLen hop
+// fields per segment.
+func (solution *pathSolution) fitsPathHeader() bool {
+	total := 0
+	for _, solEdge := range solution.edges {
+		n := len(solEdge.segment.ASEntries) - solEdge.edge.Shortcut
+		if n > maxSegLen {
+			return false
+		}
+		total += n
+	}
+	return total <= scion.MaxHops
+}
+
 func getAuth(a *seg.ASEntry) []byte {
 	if a.UnsignedExtensions.EpicDetached == nil {
 		return nil
